@@ -446,6 +446,20 @@ fn schema_opts(rng: &mut Rng, b: &Built, malformed: bool) -> SOpts {
 fn main() {
     silence_panics();
     let args = parse_args();
+    if let Some(i) = args.extra.iter().position(|a| a == "--probe") {
+        // development aid: print what the real printers emit for one SDL file
+        let src = std::fs::read_to_string(&args.extra[i + 1]).unwrap();
+        let doc = load_schema(&src).expect("load");
+        println!("check errors: {:?}", check_schema(&doc).iter().map(|e| format!("{:?}", e.message)).collect::<Vec<_>>());
+        let mut scalars = builtin_scalars();
+        for a in args.extra.iter().skip(i + 2) { if let Some((k, v)) = a.split_once('=') { scalars.push((k.into(), ScalarTypeConfig::Single(v.into()))); } }
+        let o = SOpts { scalars, meta: "__nitrogql_schema".into(), optional: true, runtime: false };
+        let (_, j, text) = run_schema(&doc, &o);
+        println!("--- schema: {j}\n{}", text.unwrap_or_default());
+        let (_, j, text) = run_resolvers(&doc, &ROpts { root: "Resolvers".into(), output: "ResolverOutput".into(), source: "schema".into(), ns: "Schema".into() }, 0);
+        println!("--- resolvers: {j}\n{}", text.unwrap_or_default());
+        return;
+    }
     let mut rng = Rng::new(args.seed);
     let thorough = args.tier == "thorough";
     let mut cases = Cases::new("From V Require Import Base.Util Gql.Ast Writer.Wop Ts.TsType C10.Model C10.Corr.", "case", "agree", "holds", 5);
